@@ -276,6 +276,7 @@ func c09HistTrace(args []string) error {
 		kb3 := newBuilder(false)                        // ... and one whose compiled templates are first evaluated when the history is over
 		w.Write(M{"op": "new", "h": h})
 		g.pool = nil
+		g.pickStyle() // one white-space style per history
 		for k := 2 + g.rng.Intn(3); k > 0; k-- {
 			g.maxDepth, g.maxArgs = 2+g.rng.Intn(2), 1+g.rng.Intn(3)
 			g.pool = append(g.pool, g.poolArg())
